@@ -18,6 +18,7 @@ CONSTANTS NRemotes,     \* remotes 1..NRemotes
           VLanes, MLanes, SLanes,   \* value / map / supply lanes remotes may address
           UseCmd,       \* TRUE: instruction commands to the "cmd" lane (agent-side writes, supply, sends)
           Keys,         \* map keys
+          Burst,        \* TRUE: sends may be issued back to back without letting the agent settle
           Faults        \* subset of {"drop", "dropread", "unknown", "restart", "kill"}
 
 VARIABLES script, att, gone, nv, restarts, kind
@@ -26,6 +27,7 @@ vars == <<script, att, gone, nv, restarts, kind>>
 Remotes == 1..NRemotes
 Live == att \ gone
 Lanes == VLanes \cup MLanes \cup SLanes
+NS == IF Burst THEN {TRUE, FALSE} ELSE {FALSE}
 
 Init == script = <<>> /\ att = {} /\ gone = {} /\ nv = 1 /\ restarts = 0 /\ kind = "none"
 
@@ -35,8 +37,8 @@ Attach == \E r \in Remotes \ att : \E c \in Caps :
             /\ Emit([k |-> "attach", r |-> r, cap |-> c])
             /\ att' = att \cup {r} /\ UNCHANGED <<gone, nv, restarts>>
 
-Proto == \E r \in Live : \E l \in Lanes : \E op \in {"link", "sync", "unlink"} :
-            /\ Emit([k |-> "send", r |-> r, lane |-> l, op |-> op])
+Proto == \E r \in Live : \E l \in Lanes : \E op \in {"link", "sync", "unlink"} : \E ns \in NS :
+            /\ Emit([k |-> "send", r |-> r, lane |-> l, op |-> op, nosettle |-> ns])
             /\ UNCHANGED <<att, gone, nv, restarts>>
 
 Unknown == /\ "unknown" \in Faults
@@ -44,18 +46,18 @@ Unknown == /\ "unknown" \in Faults
                 /\ Emit([k |-> "send", r |-> r, lane |-> "nolane", op |-> op, m |-> "raw", v |-> nv])
                 /\ UNCHANGED <<att, gone, restarts>> /\ nv' = nv + 1
 
-SetCmd == \E r \in Live : \E l \in VLanes :
-            /\ Emit([k |-> "send", r |-> r, lane |-> l, op |-> "cmd", m |-> "set", v |-> nv])
+SetCmd == \E r \in Live : \E l \in VLanes : \E ns \in NS :
+            /\ Emit([k |-> "send", r |-> r, lane |-> l, op |-> "cmd", m |-> "set", v |-> nv, nosettle |-> ns])
             /\ nv' = nv + 1 /\ UNCHANGED <<att, gone, restarts>>
 
-MapCmd == \E r \in Live : \E l \in MLanes :
+MapCmd == \E r \in Live : \E l \in MLanes : \E ns \in NS :
             \/ \E key \in Keys :
-                 /\ Emit([k |-> "send", r |-> r, lane |-> l, op |-> "cmd", m |-> "upd", key |-> key, v |-> nv])
+                 /\ Emit([k |-> "send", r |-> r, lane |-> l, op |-> "cmd", m |-> "upd", key |-> key, v |-> nv, nosettle |-> ns])
                  /\ nv' = nv + 1 /\ UNCHANGED <<att, gone, restarts>>
             \/ \E key \in Keys :
-                 /\ Emit([k |-> "send", r |-> r, lane |-> l, op |-> "cmd", m |-> "rem", key |-> key])
+                 /\ Emit([k |-> "send", r |-> r, lane |-> l, op |-> "cmd", m |-> "rem", key |-> key, nosettle |-> ns])
                  /\ UNCHANGED <<att, gone, nv, restarts>>
-            \/ /\ Emit([k |-> "send", r |-> r, lane |-> l, op |-> "cmd", m |-> "clr"])
+            \/ /\ Emit([k |-> "send", r |-> r, lane |-> l, op |-> "cmd", m |-> "clr", nosettle |-> ns])
                /\ UNCHANGED <<att, gone, nv, restarts>>
             \/ \E n \in 0..2 : \E m \in {"take", "drop"} :
                  /\ Emit([k |-> "send", r |-> r, lane |-> l, op |-> "cmd", m |-> m, n |-> n])
@@ -74,7 +76,7 @@ AgentCmd == /\ UseCmd
             /\ \E r \in Live : \E len \in 1..3 :
                  \E a \in Instr(nv) : \E b \in Instr(nv + 1) : \E c \in Instr(nv + 2) :
                    /\ Emit([k |-> "send", r |-> r, lane |-> "cmd", op |-> "cmd", m |-> "prog",
-                            prog |-> SubSeq(<<a, b, c>>, 1, len), tag |-> nv])
+                            prog |-> SubSeq(<<a, b, c>>, 1, len), tag |-> nv, nosettle |-> (Burst /\ len = 1)])
                    /\ nv' = nv + 3 /\ UNCHANGED <<att, gone, restarts>>
 
 Read == \E r \in Live : \E n \in {0, 1, 2} :
